@@ -13,6 +13,10 @@ ASSUMPTIONS = ["the peer keeps receiving (Send never blocks for ever)", "handler
 
 def run(ctx, res):
     srvlib.run_family(ctx, res, "c06")
+    if not ctx.get("replay"):
+        # the limit is per server: servers built from one *ServerOptions value do not share slots (scripted probe)
+        from . import common as C
+        C.run_probes(res, "C06", ["shared-options-own-limits"])
     res.rule = ("scenario = seeded history of environment actions (records fed: single/batch, calls, notifications, each "
                 "single-defect invalid member, reply-shaped members, non-JSON; handler completions with results/errors; "
                 "CancelRequest, Stop, Notify/Callback, context ends, Recv errors, Send failures, restart) interleaved with "
